@@ -21,7 +21,17 @@ use byteorder::{LittleEndian, ReadBytesExt};
 use crate::version::Version;
 use crate::{Error, RtMessage, Tag, MAX_REQUEST_LENGTH, MIN_REQUEST_LENGTH, REQUEST_FRAMING_BYTES};
 
+/// Size (in bytes) of the nonce in a classic (Google) request
+const CLASSIC_NONCE_LENGTH: usize = 64;
+
+/// Size (in bytes) of the nonce in an IETF request
+const IETF_NONCE_LENGTH: usize = 32;
+
 /// Guess which protocol the request is using and extract the client's nonce from the request
+///
+/// The nonce is echoed in the response, so a nonce of any other size than the protocol's is
+/// refused: besides not being a valid request, an oversized nonce would make the response
+/// larger than the request.
 pub fn nonce_from_request(
     buf: &[u8],
     num_bytes: usize,
@@ -48,8 +58,8 @@ fn is_rfc_request(buf: &[u8]) -> bool {
 fn nonce_from_classic_request(buf: &[u8]) -> Result<(Vec<u8>, Version), Error> {
     let msg = RtMessage::from_bytes(buf)?;
     match msg.get_field(Tag::NONC) {
-        Some(nonce) => Ok((nonce.to_vec(), Version::Google)),
-        None => Err(Error::InvalidRequest),
+        Some(nonce) if nonce.len() == CLASSIC_NONCE_LENGTH => Ok((nonce.to_vec(), Version::Google)),
+        _ => Err(Error::InvalidRequest),
     }
 }
 
@@ -78,8 +88,8 @@ fn nonce_from_rfc_request(buf: &[u8], expected_srv: &[u8]) -> Result<(Vec<u8>, V
     }
 
     match msg.get_field(Tag::NONC) {
-        Some(nonce) => Ok((nonce.to_vec(), version.unwrap())),
-        None => Err(Error::InvalidRequest),
+        Some(nonce) if nonce.len() == IETF_NONCE_LENGTH => Ok((nonce.to_vec(), version.unwrap())),
+        _ => Err(Error::InvalidRequest),
     }
 }
 
